@@ -367,6 +367,19 @@ func runRefl(raw json.RawMessage) (res *Result, err error) {
 			s := stk.And().Push(1)
 			s.Free()
 			recvAny = s
+		case "freedpol":
+			// released while its own validity policy is failing and other settings are in place:
+			// Free makes the handle zero unless the instance is read-only - nothing else stops it
+			s := stk.And(5).Push(1, 2).SetValidityPolicy(func(...any) error { return errors.New("fails") }).
+				SetPushPolicy(func(...any) error { return errors.New("no") }).SetMutex().SetNoNesting(true)
+			s.SetErr(errors.New("stale"))
+			s.Free()
+			recvAny = s
+		case "freedpolcond":
+			c := stk.Cond("k", stk.Eq, "v").SetValidityPolicy(func(...any) error { return errors.New("fails") }).SetNoNesting(true)
+			c.SetErr(errors.New("stale"))
+			c.Free()
+			recvAny, isStack = c, false
 		case "zcond":
 			recvAny, isStack = stk.Condition{}, false
 		case "freedcond":
@@ -745,14 +758,14 @@ func genZeroReflect(ctx *Ctx, emit func(any, string)) {
 	sm := methodNames(&stk.Stack{})
 	cm := methodNames(&stk.Condition{})
 	am := methodNames(&stk.Auxiliary{})
-	for _, rn := range []string{"zstack", "freed", "other-handle"} {
+	for _, rn := range []string{"zstack", "freed", "freedpol", "other-handle"} {
 		for _, m := range sm {
 			for v := 0; v < nVariants(stk.Stack{}, m); v++ {
 				emit(ReflInput{Mode: "zero", Recv: rn, Calls: []RCall{{m, v}}}, "exhaustive")
 			}
 		}
 	}
-	for _, rn := range []string{"zcond", "freedcond", "cond-init", "other-handle-cond"} {
+	for _, rn := range []string{"zcond", "freedcond", "freedpolcond", "cond-init", "other-handle-cond"} {
 		for _, m := range cm {
 			for v := 0; v < nVariants(stk.Condition{}, m); v++ {
 				emit(ReflInput{Mode: "zero", Recv: rn, Calls: []RCall{{m, v}}}, "exhaustive")
